@@ -162,6 +162,26 @@ func genC10(seed uint64, part string) *Scenario {
 		b.Rm = r.Chance(1, 4)
 		sc.Bars = append(sc.Bars, b)
 	}
+	if r.Chance(1, 4) {
+		// increments each followed by a read, racing one SetTotal(-1, true) on a bar of unknown total
+		sc.Bars = []BarSpec{simpleBar(int64(r.Pick(0, -1)))}
+		sc.Bars[0].Filler = "nop"
+		sc.Bars[0].Finish = "settotal"
+		for c := 0; c < r.Range(2, 4); c++ {
+			var ops []Op
+			for i := 0; i < r.Range(4, 10); i++ {
+				ops = append(ops, Op{K: r.PickS("increment", "incr"), B: 0, N: 1}, Op{K: "cur", B: 0})
+			}
+			sc.Clients = append(sc.Clients, ops)
+		}
+		var ops []Op
+		for i := 0; i < r.Range(0, 6); i++ {
+			ops = append(ops, Op{K: "yield", N: int64(r.Intn(3))})
+		}
+		ops = append(ops, Op{K: "settotal", B: 0, N: -1, F: true}, Op{K: "cur", B: 0}, Op{K: "compl", B: 0})
+		sc.Clients = append(sc.Clients, ops)
+		return sc
+	}
 	nc := r.Range(2, 6)
 	for c := 0; c < nc; c++ {
 		var ops []Op
